@@ -193,6 +193,10 @@ func (s *session) divV1() p1.Divider {
 	}
 }
 
+// hungGlobal: a hooked call did not return; the goroutine is leaked (possibly spinning), so
+// the run stops generating further scripts
+var hungGlobal bool
+
 func sumMap(m map[uint]uint) uint {
 	t := uint(0)
 	for _, v := range m {
@@ -416,8 +420,9 @@ func (s *session) withDrain(f func()) bool {
 	ok := true
 	select {
 	case <-fin:
-	case <-time.After(20 * time.Second):
+	case <-time.After(6 * time.Second):
 		ok = false
+		hungGlobal = true
 	}
 	close(stop)
 	<-done
